@@ -35,6 +35,7 @@ func (m *Mutex) c() chan struct{} {
 func (m *Mutex) Lock() {
 	vrt.LockPoint("Lock")
 	m.c() <- struct{}{}
+	vrt.Woke("Lock")
 }
 
 func (m *Mutex) TryLock() bool {
@@ -85,6 +86,7 @@ func (rw *RWMutex) RLock() {
 		if !rw.writer && rw.waitingW == 0 {
 			rw.readers++
 			rw.mu.Unlock()
+			vrt.Woke("RLock")
 			return
 		}
 		ch := rw.waitCh()
@@ -119,6 +121,7 @@ func (rw *RWMutex) Lock() {
 	rw.waitingW--
 	rw.writer = true
 	rw.mu.Unlock()
+	vrt.Woke("Lock")
 }
 
 func (rw *RWMutex) Unlock() {
@@ -149,6 +152,7 @@ type Once struct {
 func (o *Once) Do(f func()) {
 	vrt.LockPoint("Once.Do")
 	o.m.c() <- struct{}{}
+	vrt.Woke("Once.Do")
 	defer func() { <-o.m.c() }()
 	if !o.done {
 		defer func() { o.done = true }()
@@ -199,4 +203,5 @@ func (wg *WaitGroup) Wait() {
 	ch := wg.done
 	wg.mu.Unlock()
 	<-ch
+	vrt.Woke("WaitGroup.Wait")
 }
